@@ -163,10 +163,13 @@ MENU = {
             True),
 }
 FLAT_MENU = ('a', 'ab', 'fan', 'fant', 'a1', 'b19', 'brep')
-# A row slicer in replace mode over two-dimensional inputs has no documented
-# meaning (replace the row, or each of its elements?), so 'brep' is not combined
-# with the nested programs.
 NESTED_MENU = ('a', 'ab', 'fan', 'fant', 'a1', 'b19', 'm1', 'm1r', 'm2', 'm2r')
+# A row slicer in replace mode over two-dimensional columns: whether a row that
+# is not in the slice becomes `0` or `[0, 0]` is not documented, so it is only
+# combined with the Collect program, where both forms are accepted (see same()).
+NESTED_COLLECT_MENU = NESTED_MENU + ('brep',)
+MENUS = {'flat': FLAT_MENU, 'nested': NESTED_MENU,
+         'nested-collect': NESTED_COLLECT_MENU}
 
 
 def _mv():
@@ -178,31 +181,31 @@ def _agg(kind, cols, names, sliced=True):
   return dict(kind=kind, cols=list(cols), names=list(names), sliced=sliced)
 
 
-# cfg id -> (nested?, ndarray columns?, [(fn maker, input_keys, output_keys, oracle agg)])
+# cfg id -> (menu, ndarray columns?, [(fn maker, input_keys, output_keys, oracle agg)])
 CONFIGS = {
-    'collect-str': (False, False, [
+    'collect-str': ('flat', False, [
         (lambda: Collect(1), 'v', 'out', _agg('collect', ['v'], ['out']))]),
-    'mean-tuple-ndarray': (False, True, [
+    'mean-tuple-ndarray': ('flat', True, [
         (Mean2, ('v', 'w'), ('m_v', 'm_w'),
          _agg('mean', ['v', 'w'], ['m_v', 'm_w']))]),
-    'mean-dictkeys': (False, False, [
+    'mean-dictkeys': ('flat', False, [
         (MeanDict, dict(x='v'), dict(mean='m', cnt='n'),
          _agg('meandict', ['v'], ['mean', 'cnt']))]),
-    'collect-unsliced+mv': (False, False, [
+    'collect-unsliced+mv': ('flat', False, [
         (lambda: Collect(1), 'v', 'out', _agg('collect', ['v'], ['out'], False)),
         (_mv, 'v', 'mv', _agg('mv', ['v'], ['mv']))]),
-    'mv+collect-unsliced': (False, True, [
+    'mv+collect-unsliced': ('flat', True, [
         (_mv, 'w', 'mv', _agg('mv', ['w'], ['mv'])),
         (lambda: Collect(2), ('v', 'w'), 'out',
          _agg('collect', ['v', 'w'], ['out'], False))]),
-    'collect+mean': (False, False, [
+    'collect+mean': ('flat', False, [
         (lambda: Collect(1), 'v', 'out', _agg('collect', ['v'], ['out'])),
         (Mean2, ('v', 'w'), ('m_v', 'm_w'),
          _agg('mean', ['v', 'w'], ['m_v', 'm_w']))]),
-    'nested-collect': (True, False, [
+    'nested-collect': ('nested-collect', False, [
         (lambda: Collect(2), ('vs', 'ws'), 'out',
          _agg('collect', ['vs', 'ws'], ['out']))]),
-    'flat-unsliced+nested-mean': (True, False, [
+    'flat-unsliced+nested-mean': ('nested', False, [
         (lambda: Collect(1), 'v', 'flat', _agg('collect', ['v'], ['flat'], False)),
         (Mean2, ('vs', 'ws'), ('m_vs', 'm_ws'),
          _agg('mean', ['vs', 'ws'], ['m_vs', 'm_ws']))]),
@@ -210,8 +213,7 @@ CONFIGS = {
 
 
 def subsets_of(cfg, max_size):
-  nested = CONFIGS[cfg][0]
-  for sub in enums.subsets(NESTED_MENU if nested else FLAT_MENU, max_size):
+  for sub in enums.subsets(MENUS[CONFIGS[cfg][0]], max_size):
     names = [MENU[s][1]['name'] for s in sub]
     if len(set(names)) == len(names):  # add_slice rejects duplicate slice names
       yield sub
@@ -314,7 +316,17 @@ def same(kind, got, exp):
     return g[0] == exp[0] and all(
         abs(a - float(b)) <= 1e-9 * (1 + abs(float(b)))
         for a, b in zip(g[1:], exp[1:]))
+  if kind == 'collect':  # a fully replaced row may be `0` or `[0, ..., 0]`
+    got, exp = _zero_rows(_plain(got)), _zero_rows(exp)
   return _plain(got) == exp and type(got) is type(exp)  # pylint: disable=unidiomatic-typecheck
+
+
+def _zero_rows(cols):
+  if not (isinstance(cols, list) and all(isinstance(c, list) for c in cols)):
+    return cols
+  return [[0 if isinstance(r, list) and r and all(
+      not isinstance(e, list) and e == 0 for e in r) else r for r in c]
+          for c in cols]
 
 
 def compare(st, driver, cfg, subset, result, exp, kinds, replay):
@@ -339,10 +351,45 @@ def compare(st, driver, cfg, subset, result, exp, kinds, replay):
   return got
 
 
+def drive(st, driver, cfg, subset, stream, replay):
+  """Runs one driver on a freshly built runner; returns the reported result."""
+  from ml_metrics._src.chainables import transform
+  batches = to_batches(stream, CONFIGS[cfg][1])[1]
+  runner = build(cfg, subset).make()
+  if driver == 'call':
+    return (runner(batches[0]) if batches
+            else runner(input_iterator=iter(())))
+  if driver == 'merge':
+    states = [runner.update_state(runner.create_state(), b)
+              for b in batches] or [runner.create_state()]
+    return runner.get_result(runner.merge_states(states))
+  it = runner.iterate(iter(batches))
+  *outs, returned = transform.iterate_with_returned(it)
+  result = it.agg_result
+  if len(outs) != len(batches):
+    st.violation(f'C02:iterate:forwarded-batches:{cfg}',
+                 {'n_out': len(outs), **replay}, replay=replay)
+  if not isinstance(returned, transform.AggregateResult) or repr(
+      canon(returned.agg_result)) != repr(canon(result)):
+    st.violation(f'C02:iterate:returned-differs-from-agg_result:{cfg}',
+                 {'returned': repr(returned)[:600], **replay}, replay=replay)
+  return result
+
+
+def _culprit(driver, cfg, subset, stream, sig):
+  """The single slicer that reproduces the same error alone, else the subset."""
+  for s in subset if len(subset) > 1 else ():
+    try:
+      drive(Stats(), driver, cfg, (s,), stream, {})
+    except Exception as e:  # pylint: disable=broad-except
+      if f'{type(e).__name__}<-{type(e.__cause__ or e).__name__}' == sig:
+        return s
+  return '+'.join(subset) or 'no-slicer'
+
+
 def run_case(st, family, cfg, subset, stream, drivers=('call', 'iterate', 'merge')):
   """One (program, stream) pair through the drivers; returns unsliced values."""
-  from ml_metrics._src.chainables import transform
-  nested, ndarray, parts = CONFIGS[cfg]
+  _, ndarray, parts = CONFIGS[cfg]
   plain, _ = to_batches(stream, ndarray)
   aggs = [p[3] for p in parts]
   kinds = {n: a['kind'] for a in aggs for n in a['names']}
@@ -356,35 +403,14 @@ def run_case(st, family, cfg, subset, stream, drivers=('call', 'iterate', 'merge
       continue  # __call__(input_iterator=) is iterate() + agg_result
     case = (driver, cfg, subset, stream)
     st.case(case, nontrivial=nrows > 0)
-    batches = to_batches(stream, ndarray)[1]
     try:
-      runner = build(cfg, subset).make()
-      if driver == 'call':
-        result = (runner(batches[0]) if batches
-                  else runner(input_iterator=iter(())))
-      elif driver == 'iterate':
-        it = runner.iterate(iter(batches))
-        *outs, returned = transform.iterate_with_returned(it)
-        result = it.agg_result
-        if len(outs) != len(batches):
-          st.violation(f'C02:iterate:forwarded-batches:{cfg}',
-                       {'n_out': len(outs), **replay}, replay=replay)
-        if not isinstance(returned, transform.AggregateResult) or repr(
-            canon(returned.agg_result)) != repr(canon(result)):
-          st.violation(f'C02:iterate:returned-differs-from-agg_result:{cfg}',
-                       {'returned': repr(returned)[:600], **replay},
-                       replay=replay)
-      else:
-        states = [runner.update_state(runner.create_state(), b)
-                  for b in batches] or [runner.create_state()]
-        result = runner.get_result(runner.merge_states(states))
+      result = drive(st, driver, cfg, subset, stream, replay)
     except Exception as e:  # pylint: disable=broad-except
       cause = e.__cause__ or e
-      where = (f'{cfg}:{"+".join(subset) or "no-slicer"}' if nrows
-               else 'empty-stream')
+      sig = f'{type(e).__name__}<-{type(cause).__name__}'
+      where = f'{cfg}:{_culprit(driver, cfg, subset, stream, sig)}'
       st.violation(
-          f'C02:{driver}:raise:{type(e).__name__}<-{type(cause).__name__}:'
-          f'{where}',
+          f'C02:{driver}:raise:{sig}:{where if nrows else "empty-stream"}',
           {'error': repr(e)[:400], 'cause': repr(cause)[:400], **replay},
           replay=replay)
       continue
@@ -433,20 +459,22 @@ def run(ctx):
     ss = ctx.shuffled(streams(family, nmax))
     ctx.notes[f'streams_{family}'] = len(ss)
     for cfg in cfgs:
-      per = max(1, (4000 if ctx.quick else 12000)
+      per = max(1, (800 if ctx.quick else 4000)
                 // max(1, len(list(subsets_of(cfg, max_subset)))))
       units += [(family, cfg, max_subset, ss[i:i + per])
                 for i in range(0, len(ss), per)]
-  ctx.notes['programs'] = {
-      f'{family}/{cfg}': len(list(subsets_of(cfg, m)))
-      for family, _, cfgs, m in pl for cfg in cfgs}
+  per_cfg = {f'{family}/{cfg}': len(list(subsets_of(cfg, m)))
+             for family, _, cfgs, m in pl for cfg in cfgs}
+  ctx.notes['programs'] = sum(per_cfg.values())
+  ctx.notes['slicer_subsets_per_configuration'] = per_cfg
   ctx.rule = (
       'programs: 8 aggregate configurations (Collect / exact mean / '
       'MeanAndVariance; str, tuple, dict output keys; positional and keyword '
       'input keys; single or two stacked aggregates, one with disable_slicing, '
       'flat or nested (2 elements per row) input columns, list or ndarray '
       'columns) x every subset of size <= %d of the slicer menu %s (nested '
-      'programs: %s), subsets with duplicate slice names excluded; streams: '
+      'programs: %s, plus brep for the nested Collect program), subsets with '
+      'duplicate slice names excluded; streams: '
       'family "tagged" = every row sequence with total rows <= %d over features '
       'a,b in {1,2} (value = square of the row index) cut in every way into <= 3 '
       'non-empty batches of <= 3 rows, incl. the empty stream; family '
@@ -459,8 +487,9 @@ def run(ctx):
       'a slice is fed only from the batches in which it occurs; in replace mode '
       'the non-members of those batches are replaced, other batches add nothing',
       'a row that names the same slice twice counts once (mask semantics)',
-      'every batch has >= 1 row; a row slicer in replace mode is only combined '
-      'with one-dimensional input columns',
+      'every batch has >= 1 row; a row slicer in replace mode over nested '
+      'columns may turn a non-member row into 0 or into [0, 0] (both accepted) '
+      'and is only combined with the Collect aggregate there',
       'mask slicers yield nested lists of bools, one per element; row slicers '
       'are combined with rectangular nested columns only',
   ]
